@@ -18,6 +18,7 @@ import (
 	"pgregory.net/rapid"
 	"vh/appsup"
 	"vh/drive"
+	"vh/enc"
 	"vh/gen"
 	"vh/stats"
 )
@@ -280,6 +281,18 @@ func gen1(t *rapid.T) Case {
 		c.Stream.Segs = append([]gen.Segment{{Kind: "valid", Data: gen.ValidFrame(t, 50)}}, c.Stream.Segs...)
 		d, note := gen.Truncate(t, gen.ValidFrame(t, 50))
 		c.Stream.Segs = append(c.Stream.Segs, gen.Segment{Kind: "truncated", Note: note, Data: d})
+	}
+	// now and then frames as long as a frame can be, and the manufacturers' types at the top of the 12-bit range
+	if rapid.IntRange(0, 3).Draw(t, "extremes") == 1 {
+		l := rapid.SampledFrom([]int{1018, 1019, 1021, 1023}).Draw(t, "longLen")
+		mt := rapid.SampledFrom([]int{1077, 4095, 4094, 4072, 2048, 2047, 1230}).Draw(t, "edgeType")
+		at := rapid.IntRange(0, len(c.Stream.Segs)).Draw(t, "edgeAt")
+		seg := gen.Segment{Kind: "valid", Data: enc.Frame(enc.PayloadWithType(mt, l, gen.Fill(t, l)))}
+		c.Stream.Segs = append(c.Stream.Segs[:at], append([]gen.Segment{seg}, c.Stream.Segs[at:]...)...)
+		if len(c.Stream.Segs) > at+1 && c.Stream.Segs[len(c.Stream.Segs)-1].Kind == "truncated" && at == len(c.Stream.Segs)-1 {
+			n := len(c.Stream.Segs)
+			c.Stream.Segs[n-1], c.Stream.Segs[n-2] = c.Stream.Segs[n-2], c.Stream.Segs[n-1]
+		}
 	}
 	c.Gate = rapid.Bool().Draw(t, "gate")
 	c.LongGate = c.Gate && rapid.IntRange(0, 19).Draw(t, "longGate") == 11
